@@ -638,6 +638,10 @@ def edges(rng, case, idx):
             for target, tot in (('1 pM', '1 kL'), ('1 pM', '100 L'), ('10 pM', '1 kL'), ('0.001 nM', '1000 L'),
                                 ('0.0001 pM', '1000 kg'), ('0.0001 pM', '12345 kg'), ('0.0001 pM', '1e6 kg'), ('0.0001 pM', '55 kmol'),
                                 ('0.0001 pM', '1000 kmol'), ('0.0002 pM', '2000 kg'), ('0.0001 pM', '1 kL')):
+                v_t, b_t = R.parse_quantity(tot)
+                litres = v_t * {'L': 1.0, 'g': 1e-3, 'mol': 18.0153e-3}[b_t]
+                if target.startswith('0.000') and R.parse_concentration(target)[0] * litres < 200 * cf.q * cf.vol_prefix:
+                    continue        # (the stock portion - so many litres of 1 M - is below what the volume storage unit resolves)
                 res, exc = attempt(lambda: C.create_solution_from(molar, salt, target, water, tot))
                 want_stored = R.parse_concentration(target)[0] * (R.parse_quantity(tot)[0] if tot.endswith('L') else 0.0) / cf.mol_prefix
                 if exc is not None and (not isinstance(exc, ValueError) or not tot.endswith('L') or want_stored >= 200 * cf.q):
